@@ -183,6 +183,28 @@ def forge_crc32(prefix, target):
     return res
 
 
+# the classic pair of 128-byte messages with the same MD5 digest (Wang et al. 2004): what a cache keyed by a digest cannot tell apart
+MD5_TWINS = (bytes.fromhex('d131dd02c5e6eec4693d9a0698aff95c2fcab58712467eab4004583eb8fb7f89'
+                           '55ad340609f4b30283e488832571415a085125e8f7cdc99fd91dbdf280373c5b'
+                           'd8823e3156348f5bae6dacd436c919c6dd53e2b487da03fd02396306d248cda0'
+                           'e99f33420f577ee8ce54b67080a80d1ec69821bcb6a8839396f9652b6ff72a70'),
+             bytes.fromhex('d131dd02c5e6eec4693d9a0698aff95c2fcab50712467eab4004583eb8fb7f89'
+                           '55ad340609f4b30283e4888325f1415a085125e8f7cdc99fd91dbd7280373c5b'
+                           'd8823e3156348f5bae6dacd436c919c6dd53e23487da03fd02396306d248cda0'
+                           'e99f33420f577ee8ce54b67080280d1ec69821bcb6a8839396f965ab6ff72a70'))
+
+
+def md5_twins(suffix=b''):
+    """two different byte strings of equal length with the same MD5 (the collision survives any common suffix); None if that does not hold here"""
+    import hashlib
+    a, b = MD5_TWINS[0] + suffix, MD5_TWINS[1] + suffix
+    try:
+        same = hashlib.md5(a, usedforsecurity=False).digest() == hashlib.md5(b, usedforsecurity=False).digest()
+    except Exception:
+        return None
+    return (a, b) if same and a != b else None
+
+
 def crc_twins(rng, n):
     """two different byte strings of length n (>= 8) with the same CRC-32 (what a cache keyed by length + checksum cannot tell apart)"""
     import zlib
